@@ -95,3 +95,24 @@ def check_parse_fn(spec: EnumSpec, err_ty="strum::ParseError", err_check="*e == 
     lines.append("    }")
     lines.append("}")
     return "\n".join(lines)
+
+
+def witness_inputs(spec: EnumSpec, limit=24, maxlen=16):
+    """fixed inputs derived from the program's own spellings (no free variable): every spelling, its case flips, the
+    un-cased identifier, names of disabled variants, outer whitespace, one-character edits, Unicode look-alikes"""
+    subs = {"k": "\u212a", "K": "\u212a", "s": "\u017f", "S": "\u017f", "i": "\u0131", "I": "\u0130"}
+    out = []
+    for v in spec.variants:
+        for sp in spellings(spec, v) + [v.ident]:
+            out += [sp, sp.swapcase(), sp.upper(), sp.lower(), sp.title(), " " + sp, sp + " ", sp + "x", sp[:-1], sp[1:]]
+            for i, ch in enumerate(sp):
+                if ch in subs:
+                    out.append(sp[:i] + subs[ch] + sp[i + 1:])
+    out += ["", " ", "\u00e9"]
+    seen, res = set(), []
+    for x in out:
+        if x not in seen and len(x.encode()) <= maxlen:
+            seen.add(x)
+            res.append(x)
+    # keep a spread: spellings first, then the rest round-robin
+    return res[:limit] if len(res) <= limit else res[: limit // 2] + res[limit // 2:: max(1, (len(res) - limit // 2) // (limit // 2))][: limit // 2]
